@@ -12,6 +12,7 @@ from __future__ import annotations
 
 import ast
 import builtins
+import os
 from typing import Dict, List, Optional, Tuple
 
 from .frontend import AnalysisError, FuncInfo, Program, unparse
@@ -369,6 +370,12 @@ class Interp:
 
     def enum_has(self, enum, version, name) -> bool:
         return any(n == name for n, _ in self.enum_table(enum, version)["members"])
+
+    def enum_has_safe(self, enum, version, name, value) -> bool:
+        try:
+            return self.enum_value(enum, version, name) == value
+        except AnalysisError:
+            return False
 
     def enum_canonical_names(self, enum, version):
         return [n for n, _ in self.enum_table(enum, version)["canonical"]]
@@ -764,9 +771,16 @@ class Interp:
         entries = {}
         for tval, rows in c["VALID_PAYLOADS"].items():
             sub = {}
+            keyobjs = {}
             for sval, row in rows.items():
                 sub[int(sval)] = ExtObj(f"payloadrule:{ver}:{tval}:{sval}", "refl.validator", [Const(repr(row["d"]))])
-            entries[int(tval)] = DictV(sub, True, label=f"VALID_PAYLOADS:{ver}:{tval}")
+                if row.get("key_cls") and row.get("key_name") and self.enum_has_safe(row["key_cls"], ver, row["key_name"], int(sval)):
+                    keyobjs[int(sval)] = EnumMemV(row["key_cls"], ver, (row["key_name"],))
+                else:
+                    keyobjs[int(sval)] = Const(int(sval))  # key is a member of another version's enum
+            dv = DictV(sub, True, label=f"VALID_PAYLOADS:{ver}:{tval}")
+            dv.keyobjs = keyobjs
+            entries[int(tval)] = dv
         return DictV(entries, True, label=f"VALID_PAYLOADS:{ver}")
 
     def module_attr(self, st, base: ModV, name, node) -> V:
@@ -1611,7 +1625,9 @@ class Interp:
 
     def unroll(self) -> int:
         """Iterations explored per loop: LOOP_UNROLL at the outermost level, 1 when nested."""
-        return LOOP_UNROLL if self.loop_depth <= 1 else 1
+        if self.loop_depth <= 1:
+            return int(os.environ.get("VERIF_UNROLL", LOOP_UNROLL))
+        return int(os.environ.get("VERIF_UNROLL_NESTED", 1))
 
     def st_While(self, node, st):
         self.loop_depth += 1
